@@ -213,7 +213,9 @@ def case_3ax(W, cfg):
         da = xr.DataArray(a, dims=order)
         for op in OPS:
             fz = W.scalar("fz")
-            to = {ax: shifts[ax][1] for ax in axes if shifts[ax][1] is not None}
+            # a total per-axis mapping; None = "use the default shift" (the statement says nothing about mappings
+            # of `to` that name only some axes, so none is passed)
+            to = {ax: shifts[ax][1] for ax in axes}
             r = getattr(grid, op)(da, cfg["axorder"], to=to, boundary={"Z": "fill"}, fill_value={"Z": fz})
             cur, cur_dims = a, list(order)
             for ax in cfg["axorder"]:
